@@ -49,12 +49,14 @@ func Copy(ctx context.Context, ids []ChunkID, src Store, dst WriteStore, n int, 
 	}
 
 	// Feed the workers, the context is cancelled if any goroutine encounters an error
+	var interrupted bool
 loop:
 	for _, c := range ids {
 		verifYield("pl.feed", "id", c)
 		select {
 		case <-ctx.Done():
 			verifYield("pl.leave")
+			interrupted = true
 			break loop
 		case in <- c:
 		}
@@ -62,5 +64,11 @@ loop:
 	verifYield("pl.close")
 	close(in)
 
-	return g.Wait()
+	if err := g.Wait(); err != nil {
+		return err
+	}
+	if interrupted { // stopped feeding without a worker error: not all chunks were copied
+		return Interrupted{}
+	}
+	return nil
 }
